@@ -290,46 +290,37 @@ def run(F, R, tier):
 
     # ------------------------------------------------------------------ R3 guarded insertion, R4 refusal leaves the document unchanged
     r3 = R.rule("C04-R3", "T2", "every insertion into a guarded set happens after its gate passed, and no error exit is reachable after a mutation (a refused operation leaves the document unchanged)")
+    # decided on the decision tables, with the set primitives as oracles that may succeed or refuse: (a) no path ends in an error after a
+    # primitive changed a set (its result is not decided `false`), (b) a path inserts at most once, (c) insert_method reaches each of the
+    # six method sets, (d) an insertion is attempted only on paths whose gate found no entry with the new id (C04-R2 decides the gate)
+    MUT_OPQ = GATE_OPQ + r"|OrderedSet::(prepend|remove|replace|update|clear|retain)$"
+    MUT_RX = r"OrderedSet::(append|prepend|remove|replace|update|clear|retain)$"
     for fn in (CD + "::insert_method", CD + "::insert_service", CD + "::attach_method_relationship", CD + "::detach_method_relationship"):
-        h = F.hir(fn)
-        if not r3.anchor(h, fn):
+        if not r3.anchor(F.hir(fn), fn):
             continue
-        env = H.Env(h)
-        tree, infos = L.exit_infos(h)
-        muts = [n for n in H.walk(H.root(h)) if n.get("k") == "mcall" and n["name"] in SET_MUT and (H.fn_name(n) or "").startswith(OS + "::") and data_field_of(n["recv"], env)]
-        r3.site("%s: %d set mutation(s): %s" % (L.short(fn), len(muts), sorted({n["name"] for n in muts})), h["value"]["sp"])
-        for e in infos:
-            if L.is_success_exit(e):
-                continue
-            pre_nodes = [x for s in e.pre for x in H.walk(s)]
-            bad = [m for m in muts if any(m is x for x in pre_nodes)]
-            r3.require(not bad, (fn, "error-after-mutation"), "%s: an error exit (%s) is reachable after the document was mutated" % (L.short(fn), e.outcome), e.node.get("sp"))
-    fn = CD + "::insert_method"
-    h = F.hir(fn)
-    if h:
-        env = H.Env(h)
-        tree = H.Tree(h)
-        gate = [node for cond, oc, node in L.block_guards(H.root(h)) if oc == "Err(MethodInsertionError)"]
-        apps = [n for n in H.walk(H.root(h)) if n.get("k") == "mcall" and n["name"] == "append" and data_field_of(n["recv"], env)]
-        for a_ in apps:
-            pre = tree.preceding(a_)
-            r3.require(bool(gate) and any(g is x or any(g is y for y in H.walk(x)) for g in gate for x in pre), (fn, "append-before-gate"), "insert_method appends before the id gate", a_["sp"])
-        r3.require(len(apps) == 6, (fn, "append-count"), "insert_method must have one append per scope (6), found %d" % len(apps))
-        r3.site("insert_method: %d appends, all after the gate" % len(apps))
-    fn = CD + "::insert_service"
-    h = F.hir(fn)
-    if h:
-        env = H.Env(h)
-        # (!id_exists) && self.data.service.append(service)
-        ok = False
-        for c in H.walk(H.root(h)):
-            if c.get("k") == "binary" and c.get("op") == "And":
-                l, neg = H.negated(c["l"])
-                r = H.strip(c["r"])
-                if neg and H.local_name(l) == "id_exists" and r.get("k") == "mcall" and r["name"] == "append" and data_field_of(r["recv"], env) == {"service"}:
-                    ok = True
-        r3.site("insert_service: (!id_exists) && service.append(service): %s" % ok)
-        r3.require(ok, (fn, "guarded-append"), "insert_service does not append only when !id_exists (short-circuit)")
+        tabm = SR.Table(F, fn, opaque=MUT_OPQ, rule=r3, max_paths=8000)
+        targets, nm = set(), 0
+        for q in tabm.paths:
+            ms = q.calls(MUT_RX)
+            nm += len(ms)
+            failed = SR.is_failure(q.ret) or not SR.is_success(q.ret)
+            for e in ms:
+                targets |= {u[2] for u in SY.subterms(SY.term(e.args[0])) if isinstance(u, tuple) and u[:1] == ("field",) and u[2] in GUARDED}
+                refused = q.succeeded(e) is False or any(c is False for (_t, c) in SR.truth_of(q, lambda t_, e=e: isinstance(e.result, SY.Sym) and t_ == e.result.t))
+                if failed and not refused:
+                    r3.fail((fn, "error-after-mutation"), "%s: an error exit is reachable after %s changed %s — path: %s" % (L.short(fn), e.fn.rsplit("::", 1)[-1], SY.fmt(SY.term(e.args[0])), q.describe()[-160:]))
+            r3.require(len([e for e in ms if re.search(r"::(append|prepend)$", e.fn)]) <= 1, (fn, "append-count"), "%s inserts more than once on one path" % L.short(fn))
+            if fn.endswith("::insert_service"):
+                for e in [e for e in ms if re.search(r"::(append|prepend)$", e.fn)]:
+                    hit = [a for (a, c, _, _) in q.decisions[:e.nd if e.nd is not None else len(q.decisions)] if a[0] == "eq" and c is True and SR.derives(a[1], SR.param("service")) != SR.derives(a[2], SR.param("service"))]
+                    r3.require(not hit, (fn, "guarded-append"), "insert_service attempts the insertion on a path that found an entry with the same id: %s" % q.describe()[-160:])
+        r3.site("%s: %d set mutation(s) over %d path(s) into %s; no error exit after a change" % (L.short(fn), nm, len(tabm.paths), sorted(targets)))
+        if fn.endswith("::insert_method") and tabm.paths:
+            want6 = {"verification_method"} | set(REL_FIELDS)
+            r3.require(targets == want6, (fn, "append-count"), "insert_method must be able to insert into each of the six method sets: reaches %s" % sorted(targets))
+            r3.site("insert_method: one insertion per path, six sets reachable: %s" % (targets == want6))
+        if fn.endswith("::insert_service") and tabm.paths:
+            r3.site("insert_service: insertion attempted only on paths without an id collision")
     # (attach_method_relationship: what is appended, where and after which lookup is decided on its decision table — C04-R8)
     r3.floor(6)
 
@@ -473,13 +464,47 @@ def run(F, R, tier):
                 ok = f["ty"].replace(" ", "").startswith("Option<") or "default" in attrs
                 r6.site("%s.%s [%s]" % (L.short(ty), f["name"], attrs[:70]), f["span"])
                 r6.require(ok, (ty, f["name"], "skip-without-default"), "%s.%s is omitted when empty but has no #[serde(default)]: the library's own JSON does not deserialise" % (L.short(ty), f["name"]))
+    # the flattened MethodData leaves its own member in the flattened `properties` of a deserialised method: the conversion that
+    # finishes deserialisation must take out exactly the member the variant is written under, or the copy differs from the original
+    VMF = "<identity_verification::verification_method::method::VerificationMethod as core::convert::From<identity_verification::verification_method::method::_VerificationMethod>>::from"
+    MD = "identity_verification::verification_method::material::MethodData"
+    amd = F.ast_item(MD)
+    if r6.anchor(F.hir(VMF), VMF) and r6.anchor(amd, MD):
+        camel = any(re.search(r'rename_all\s*=\s*"camelCase"', x) for x in amd["attrs"])
+        r6.require(camel, (MD, "serde-names"), "MethodData is no longer written with rename_all = \"camelCase\"")
+        want_ = {}
+        for v_ in amd["variants"]:
+            va_ = " ".join(v_.get("attrs") or [])
+            m_ = re.search(r'rename\s*=\s*"([^"]+)"', va_)
+            want_[v_["name"]] = None if "untagged" in va_ else (m_.group(1) if m_ else v_["name"][:1].lower() + v_["name"][1:])
+        tabv = SR.Table(F, VMF, opaque=r"::remove$|::shift_remove$|::swap_remove$|::retain$", rule=r6)
+        seen_ = {}
+        for q in tabv.paths:
+            vs_ = [c for (a_, c, _, _) in q.decisions if a_[0] == "variant" and a_[1] == ("field", ("param", "value"), "data") and c != "*"]
+            rm_ = q.calls(r"remove$")
+            out_ = q.ret if isinstance(q.ret, SY.St) else None
+            if not r6.require(len(vs_) == 1 and len(rm_) == 1 and out_ is not None, (VMF, "dedup"), "expected one decided MethodData variant and one removal from `properties` per path: %s" % q.describe()[:160]):
+                continue
+            v_ = vs_[0]
+            key_ = SY.term(rm_[0].args[1])
+            if want_.get(v_) is not None:
+                ok_ = key_ == ("lit", want_[v_])
+            else:
+                ok_ = any(isinstance(z_, tuple) and z_[:1] == ("payload",) and z_[2] == v_ for z_ in SY.subterms(key_)) and SR.derives(key_, ("field", ("param", "value"), "data"))
+            r6.require(ok_ and SR.pure(rm_[0].args[0], ("field", ("param", "value"), "properties")), (VMF, "dedup", v_), "a deserialised %s method drops the member %s from its properties, but the variant is written as %s: the duplicate stays and the copy is not equal to the original" % (
+                v_, SY.fmt(key_), want_.get(v_) or "its own name"))
+            for k_ in ("id", "controller", "type_", "data"):
+                r6.require(SR.pure(out_.f.get(k_), ("field", ("param", "value"), k_)), (VMF, "passthrough", k_), "the %s of a deserialised method is not the one that was read" % k_)
+            seen_[v_] = SY.fmt(key_)
+        r6.site("VerificationMethod ← _VerificationMethod removes per variant: %s" % seen_)
+        r6.require(not tabv.paths or set(seen_) == set(want_), (VMF, "dedup", "coverage"), "variants of MethodData without a de-duplication row: %s" % sorted(set(want_) - set(seen_)))
     a = F.ast_item(MREF)
     if r6.anchor(a, MREF):
         names = [v["name"] for v in a["variants"]]
         r6.site("MethodRef variants %s attrs %s" % (names, [x for x in a["attrs"] if "serde" in x]))
         r6.require(any("untagged" in x for x in a["attrs"]), (MREF, "untagged"), "MethodRef is not #[serde(untagged)]")
         r6.require(names == ["Embed", "Refer"], (MREF, "variant-order"), "MethodRef variants must be tried as Embed then Refer: %s" % names)
-    r6.floor(10)
+    r6.floor(11)
 
     # ------------------------------------------------------------------ R7 resolution semantics
     r7 = R.rule("C04-R7", "T4+T3", "resolve_method(query, scope): scoped → that collection only; unscoped → first hit in the five relationship sets (in order), else the general-purpose "
